@@ -86,14 +86,22 @@ PROPERTIES = {
                 },
                 assumptions=["base paths containing {variables} are outside the property's quantifier",
                              "Go package name fixed to 'userpb', proto package 'acme.v1' (only the default-path rule reads them; that rule is a listed known finding)"]),
-    "C09": E_BINDING(
+    "C09": dict(
+        groups=[
+            E_BINDING(
         overlay={"gen/binding/zz_verif_c09.go": "harness/c09/c09_headers.go"},
         harnesses=[dict(func="VerifC09Merge", reach=["C09/merge-decided", "C09/kf-override"], quick=dict(budget=300), thorough=dict(budget=1200)),
-                   dict(func="VerifC09Value", reach=["C09/value-decided", "C09/kf-uuid", "C09/undecided-by-reference"], quick=dict(budget=300, parts=8), thorough=dict(budget=1200, parts=8))],
+                   dict(func="VerifC09Value", reach=["C09/value-decided", "C09/kf-uuid", "C09/undecided-by-reference"], quick=dict(budget=300, parts=8), thorough=dict(budget=1200, parts=8))]),
+            dict(mode="G", load_pkgs=["./internal/tsservergen"], pkgpath=MOD + "/internal/tsservergen", test_pkg="./internal/tsservergen", test_pkgname="tsservergen",
+                 init=DEFAULT_INIT,
+                 overlay={"internal/tsservergen/zz_verif_c09.go": "harness/c09/c09_ts_g.go"},
+                 harnesses=[dict(func="VerifC09TSHeaderConfig", reach=["C09/ts/decided"], quick=dict(budget=120), thorough=dict(budget=300))]),
+        ],
         bounds_text={"quick": "Merge: 1-2 service-level + 1 method-level declaration, method name in {same, 2 case variants, different}, required flags and presence symbolic, values printable ASCII <= 4. "
                               "Value: one required header, type in 7 x format in 7 (incl. unknown ones), declared at service or method level, value printable ASCII <= 6 (uuid additionally: any 36 characters as 8+1+4+1+4+1+4+1+12 symbolic groups, and any 37 characters)"},
         assumptions=E_ASSUMPTIONS + ["formats date-time/date/time: time.Parse is stubbed with an arbitrary result, only their dispatch is covered",
-                                     "type number: reference decides only plain decimals (must pass) and strings with characters outside [-+0-9a-zA-Z._] (must fail)"]),
+                                     "type number: reference decides only plain decimals (must pass) and strings with characters outside [-+0-9a-zA-Z._] (must fail)",
+                                     "TS server: only the emitted per-route header table is decided (one entry per declaration with name [A-Za-z0-9-]{1,6}, 7 type spellings, 6 formats, required flag; service + optional method declaration); the static TS validateHeaders runtime is not executed"]),
     "C12": dict(G_HTTPGEN,
                 overlay={"internal/httpgen/zz_verif_c12_common.go": "harness/c12/c12_common.go",
                          "internal/httpgen/zz_verif_c12_field.go": "harness/c12/c12_field_rules.go",
@@ -122,19 +130,26 @@ PROPERTIES = {
         assumptions=E_ASSUMPTIONS + ["responses are observed through a recording ResponseWriter that freezes status and headers at the first WriteHeader/Write (net/http's documented rule)",
                                      "binary transport: decoding the bytes of one message type as another type is outside the model (client mapping checked only where types coincide)",
                                      "request/header validation failures (BindingMiddleware exits), field paths of rule violations, and the TS client/server are not yet part of this check"]),
-    "C06": dict(mode="G", load_pkgs=["./internal/openapiv3"], pkgpath=MOD + "/internal/openapiv3", test_pkg="./internal/openapiv3", test_pkgname="openapiv3",
+    "C06": dict(
+        groups=[
+            dict(mode="G", load_pkgs=["./internal/openapiv3"], pkgpath=MOD + "/internal/openapiv3", test_pkg="./internal/openapiv3", test_pkgname="openapiv3",
                 init=DEFAULT_INIT,
                 overlay={"internal/openapiv3/zz_verif_c06.go": "harness/c06/c06_schema.go", "internal/openapiv3/zz_verif_c06w.go": "harness/c06/c06_wire.go"},
                 harnesses=[dict(func="VerifC06Field", reach=["C06/field/decided", "C06/field/kf-nonfinite"], quick=dict(budget=300, parts=4), thorough=dict(budget=900, parts=8)),
                            dict(func="VerifC06Flatten", reach=["C06/flatten/decided"], quick=dict(budget=120), thorough=dict(budget=400)),
                            dict(func="VerifC06Oneof", reach=["C06/oneof/decided", "C06/oneof/kf-unset", "C06/oneof/kf-nested"], quick=dict(budget=200), thorough=dict(budget=600)),
                            dict(func="VerifC06Unwrap", reach=["C06/unwrap/decided"], quick=dict(budget=200, parts=2), thorough=dict(budget=600, parts=4)),
-                           dict(func="VerifC06Builtin", reach=["C06/builtin/decided"], quick=dict(budget=60), thorough=dict(budget=120))],
+                           dict(func="VerifC06Builtin", reach=["C06/builtin/decided"], quick=dict(budget=60), thorough=dict(budget=120))]),
+            E_BINDING(overlay={"gen/binding/zz_verif_c06v.go": "harness/c06/c06_violations_e.go"},
+                      init=[MOD + "/http", "verifmod/gen/binding", "buf.build/gen/go/bufbuild/protovalidate/protocolbuffers/go/buf/validate"],
+                      harnesses=[dict(func="VerifC06ValidationErrorBody", reach=["C06/validation-body/decided"], quick=dict(budget=100), thorough=dict(budget=300))]),
+        ],
                 bounds_text={"quick": "one message with one field of any of 17 kinds (incl. enum with proto or custom value names, Timestamp with 5 formats, plain child message) x singular/optional(+nullable)/repeated(1-2 elements)/map<string,T> x int64_encoding/enum_encoding/bytes_encoding/empty_behavior values, JSON name symbolic ([a-z]{1,3}); flatten with symbolic prefix ([a-z_]{0,3}), 1-2 flattened fields; discriminated oneof with 2 variants (message/scalar, nested/flattened, custom values, symbolic discriminator); root list/map unwrap and map-value unwrap; built-in Error/ValidationError with 1-2 violations"},
                 assumptions=["the wire form is the documented mapping M (DESIGN.md Appendix A); that the emitted Go code produces M is C04/C05's obligation and their findings carry over",
                              "only definitions the annotation rules accept (Appendix B); fields marked required by buf.validate are outside this harness (the message is assumed to satisfy its own rules)",
                              "pattern, format, description and examples are treated as annotations; YAML/JSON rendering of the document is outside (in-memory base.Schema objects are evaluated)",
-                             "parameters (path/query/header) are not evaluated here yet"]),
+                             "parameters (path/query/header) are not evaluated here yet",
+                             "validation-error body (emitted convertProtovalidateError, E-mode): 1-2 violations, each message-level (no path), with an empty path object, or with a path of 1-2 non-empty element names; the rule message is non-empty (protovalidate supplies one for its standard rules)"]),
     "C07": dict(
         groups=[
             dict(mode="G", load_pkgs=["./internal/tscommon"], pkgpath=MOD + "/internal/tscommon", test_pkg="./internal/tscommon", test_pkgname="tscommon",
